@@ -33,7 +33,7 @@ ES = (3, 17, 65537)
 
 def plan(tier, seed):
     q = tier == "quick"
-    B = 28 if q else 300
+    B = 28 if q else 150
     specs = []
     if q:
         rt_keys = [[(1024, 65537, 0)], [(1025, 3, 0), (1026, 17, 0)], [(1027, 65537, 0), (1028, 3, 0)],
